@@ -11,6 +11,11 @@
 //	          | (wsbad RUN)                 ; work-start whose data is not a map
 //	          | (sig RUN SIGID DATAOK)      ; signal, data accepted (1) / rejected (0) by the data schema
 //	          | (sigbad RUN)                ; signal whose data is not a map
+//	          | (sigv RUN SIGID VALUE)      ; signal "sig" / "stop" / "two" whose data field is VALUE (a value of values.go,
+//	                                        ; or `absent`: no data field at all) - nil, scalars, lists, maps: whether the
+//	                                        ; signal's data schema takes it is for the model (Schema/Ops.v) to say
+//	          | (wsv RUN STEP TOK VALUE)    ; work-start of step "z" (input: an object WITHOUT properties) or "o" (input: an
+//	                                        ; object with the ONE property tok) whose config is VALUE | absent
 //	          | (unk MSGID RUN)             ; a message id the server does not know
 //	          | done                        ; client-done
 //	          | (garbage KIND)              ; bytes that are not a runtime message
@@ -242,10 +247,32 @@ func c07Plugin(g *c07Gates) *schema.CallableSchema {
 	sigData := schema.NewScopeSchema(schema.NewObjectSchema("sigdata", map[string]*schema.PropertySchema{"n": intP()}))
 	sig := schema.NewCallableSignal[*c07StepData, map[string]any]("sig", sigData, nil,
 		func(_ context.Context, sd *c07StepData, _ map[string]any) {})
+	// data schemas with ZERO properties (a data-less signal such as "stop") and with TWO optional ones: a lone non-map value
+	// is the shorthand of a ONE-property object only
+	optP := func(t schema.Type) *schema.PropertySchema {
+		return schema.NewPropertySchema(t, nil, false, nil, nil, nil, nil, nil)
+	}
+	stopData := func() *schema.ScopeSchema {
+		return schema.NewScopeSchema(schema.NewObjectSchema("stopdata", map[string]*schema.PropertySchema{}))
+	}
+	twoData := func() *schema.ScopeSchema {
+		return schema.NewScopeSchema(schema.NewObjectSchema("twodata", map[string]*schema.PropertySchema{
+			"a": optP(schema.NewIntSchema(nil, nil, nil)), "b": optP(schema.NewStringSchema(nil, nil, nil))}))
+	}
+	sigsS := map[string]schema.CallableSignal{"sig": sig,
+		"stop": schema.NewCallableSignal[*c07StepData, map[string]any]("stop", stopData(), nil,
+			func(_ context.Context, sd *c07StepData, _ map[string]any) {}),
+		"two": schema.NewCallableSignal[*c07StepData, map[string]any]("two", twoData(), nil,
+			func(_ context.Context, sd *c07StepData, _ map[string]any) {})}
 	// step "t" keeps its per-run data in an INTERFACE-typed StepData and has no initialiser: its signal handler
 	// receives the nil interface (D65: the type assertion on it used to panic in a goroutine without recover)
 	sigAny := schema.NewCallableSignal[any, map[string]any]("sig", sigData, nil,
 		func(_ context.Context, sd any, _ map[string]any) {})
+	sigsT := map[string]schema.CallableSignal{"sig": sigAny,
+		"stop": schema.NewCallableSignal[any, map[string]any]("stop", stopData(), nil,
+			func(_ context.Context, sd any, _ map[string]any) {}),
+		"two": schema.NewCallableSignal[any, map[string]any]("two", twoData(), nil,
+			func(_ context.Context, sd any, _ map[string]any) {})}
 	handler := func(_ context.Context, input map[string]any) (string, any) {
 		tok, _ := input["tok"].(int64)
 		beh, _ := input["beh"].(string)
@@ -273,14 +300,23 @@ func c07Plugin(g *c07Gates) *schema.CallableSchema {
 		}
 	}
 	s := schema.NewCallableStepWithSignals[*c07StepData, map[string]any]("s", in, outs(),
-		map[string]schema.CallableSignal{"sig": sig}, nil, nil,
+		sigsS, nil, nil,
 		func() *c07StepData { return &c07StepData{} },
 		func(ctx context.Context, _ *c07StepData, input map[string]any) (string, any) { return handler(ctx, input) })
 	t := schema.NewCallableStepWithSignals[any, map[string]any]("t", in, outs(),
-		map[string]schema.CallableSignal{"sig": sigAny}, nil, nil,
+		sigsT, nil, nil,
 		nil,
 		func(ctx context.Context, _ any, input map[string]any) (string, any) { return handler(ctx, input) })
-	return schema.NewCallableSchema(s, t)
+	// step "z": an input object WITHOUT properties; step "o": an input object with ONE property (a lone non-map config is its
+	// shorthand); both answer at once
+	zIn := schema.NewScopeSchema(schema.NewObjectSchema("zin", map[string]*schema.PropertySchema{}))
+	oIn := schema.NewScopeSchema(schema.NewObjectSchema("oin", map[string]*schema.PropertySchema{"tok": intP()}))
+	// (every step declares the same three signals: the server model's signal table is not per step)
+	z := schema.NewCallableStepWithSignals[any, map[string]any]("z", zIn, outs(), sigsT, nil, nil, nil,
+		func(_ context.Context, _ any, _ map[string]any) (string, any) { return "success", map[string]any{"v": int64(0)} })
+	o := schema.NewCallableStepWithSignals[any, map[string]any]("o", oIn, outs(), sigsT, nil, nil, nil,
+		func(_ context.Context, _ any, in map[string]any) (string, any) { return "success", map[string]any{"v": in["tok"]} })
+	return schema.NewCallableSchema(s, t, z, o)
 }
 
 // ---------------------------------------------------------------------------------------
@@ -350,6 +386,18 @@ func c07Bytes(a *sx.Node) []byte {
 		return c07Envelope(uint32(atp.MessageTypeSignal), a.List[1], c07Item(map[string]any{"signal_id": a.List[2].Str, "data": map[string]any{"n": n}}))
 	case "sigbad":
 		return c07Envelope(uint32(atp.MessageTypeSignal), a.List[1], c07Item("not a map"))
+	case "sigv":
+		m := map[string]any{"signal_id": a.List[2].Str}
+		if !a.List[3].IsAtom("absent") {
+			m["data"] = valFromSx(a.List[3])
+		}
+		return c07Envelope(uint32(atp.MessageTypeSignal), a.List[1], c07Item(m))
+	case "wsv":
+		m := map[string]any{"id": a.List[2].Str}
+		if !a.List[4].IsAtom("absent") {
+			m["config"] = valFromSx(a.List[4])
+		}
+		return c07Envelope(uint32(atp.MessageTypeWorkStart), a.List[1], c07Item(m))
 	case "unk":
 		return c07Envelope(uint32(a.List[1].Int()), a.List[2], c07Item(map[string]any{}))
 	case "garbage":
@@ -798,6 +846,62 @@ func genAtpsrv(r *Rng, tier string, emit func(*sx.Node)) {
 	}
 	for _, s := range append(fixed, bases...) {
 		c07Truncations(s, emit)
+	}
+	// (7) PAYLOADS against data schemas of every arity: signals "stop" (an object WITHOUT properties), "sig" (ONE required
+	// integer), "two" (two optional properties) and an unknown one, x every payload shape (no data field, nil, scalars, lists,
+	// maps: empty / fitting / unknown key / wrongly typed member), x the run being in progress (steps "s" and "t"), finished, or
+	// unknown; and the same shapes as the config of steps "z" (input WITHOUT properties) and "o" (ONE property)
+	pls := c07Payloads()
+	for _, sg := range []string{"stop", "sig", "two", "nosuchsignal"} {
+		for _, v := range pls {
+			sv := func(run string) *sx.Node { return sx.L(sx.A("sigv"), c07Run(run), sx.S(sg), v) }
+			emit(c07Script(start, c07WS("a", "s", 1, "ok", true), sv("a"), c07Rel(1), sx.A("done")))
+			emit(c07Script(start, c07WS("b", "t", 1, "ok", true), sv("b"), sx.A("eof"), c07Rel(1)))
+			emit(c07Script(start, c07WS("a", "s", 1, "ok", false), sv("a"), sv("zz"), sx.A("done")))
+		}
+	}
+	for _, st := range []string{"z", "o", "nosuchstep"} {
+		for i, v := range pls {
+			emit(c07Script(start, sx.L(sx.A("wsv"), sx.S("a"), sx.S(st), sx.I(int64(500+i)), v), pick(r, c07Enders())))
+		}
+	}
+	// (8) seeded scripts with such messages mixed in
+	nV := 600
+	if tier == "thorough" {
+		nV = 6000
+	}
+	for i := 0; i < nV; i++ {
+		base := c07Random(r).List[1:]
+		var as []*sx.Node
+		runs := []string{"a", "b", "c", "zz", "", c07NoRun}
+		for j, a := range base {
+			as = append(as, a)
+			if a.IsAtom("start") || r.Chance(45) {
+				for k := r.Intn(3); k >= 0; k-- {
+					if r.Chance(70) {
+						as = append(as, sx.L(sx.A("sigv"), c07Run(pick(r, runs)), sx.S(pick(r, []string{"stop", "stop", "sig", "two", "nosuchsignal"})), pick(r, pls)))
+					} else {
+						as = append(as, sx.L(sx.A("wsv"), c07Run(pick(r, runs)), sx.S(pick(r, []string{"z", "o", "o", "nosuchstep", ""})), sx.I(int64(600+10*j+k)), pick(r, pls)))
+					}
+				}
+			}
+		}
+		emit(c07Script(as...))
+		if i%3 == 0 {
+			emit(c07Script(append([]*sx.Node{sx.A("burst")}, as...)...))
+		}
+	}
+}
+
+// c07Payloads: the shapes of a signal's data / a work-start's config.
+func c07Payloads() []*sx.Node {
+	m := func(kv ...*sx.Node) *sx.Node { return vM(tAnyMap, kv...) }
+	return []*sx.Node{
+		sx.A("absent"), vNil(), vS("now"), vS(""), vI("i64", 1), vI("i64", -7), vSl(tAnySlice), vSl(tAnySlice, vI("i64", 1)),
+		m(), m(vS("n"), vI("i64", 1)), m(vS("n"), vS("not a number")), m(vS("zz"), vI("i64", 1)),
+		m(vS("n"), vI("i64", 1), vS("zz"), vI("i64", 2)), m(vS("a"), vI("i64", 3)), m(vS("a"), vI("i64", 3), vS("b"), vS("q")),
+		m(vS("a"), vS("bad")), m(vS("tok"), vI("i64", 5)), m(vS("tok"), vSl(tAnySlice)), m(vI("i64", 1), vI("i64", 1)),
+		m(vS("n"), vNil()), vSl(tAnySlice, m()),
 	}
 }
 
